@@ -78,8 +78,10 @@ package fatigue
 //@   ensures [report] typeis(result.Props, FatigueResult) && result.Props.(FatigueResult).EffectiveFatigueRatio == fatigueRatio
 //@   ensures [report_is_state] result.Props.(FatigueResult).ConsideredAlternatives == consideredAlts && result.Props.(FatigueResult).NotConsideredAlternatives == notConsideredAlts
 
+// what "made of the current state" means for this bias (the abstract model.actsOn)
+//@ pred fatigueActs(b model.Bias, out *model.DecisionMakingParams, in *model.DecisionMakingParams) = out.Criteria == in.Criteria && out.MethodParameters == in.MethodParameters && len(out.ConsideredAlternatives) == len(in.ConsideredAlternatives)
 //@ func (*Fatigue).Apply
-//@   refines model.Bias.Apply
+//@   refines model.Bias.Apply with actsOn=fatigueActs
 //@   property C17 C09 C07 C01
 //@   requires forall i int, j int :: 0 <= i && i < j && j < len(current.Criteria) ==> current.Criteria[i].Id != current.Criteria[j].Id
 //@   ensures [untouched] result.DMP.Criteria == current.Criteria && result.DMP.MethodParameters == current.MethodParameters
